@@ -52,7 +52,16 @@ def check(ctx: Ctx) -> str:
         hits = [r_ for r_ in astq.returns(lk[0]) if r_.value is not None and ast.unparse(r_.value) == tl]
         # `code_line <= lineno`, written either way round
         lk_ok = len(hits) == 1 and any(astq.linear_cmp(ast.parse(g, mode="eval").body) in (({cl: 1, "lineno": -1}, "<="), ({"lineno": 1, cl: -1}, ">=")) and pol for g, pol in astq.guard_atoms(lk[0], hits[0]))
-    ctx.check(lk_ok and astq.returns(gl.node)[-1].value is not None and ast.unparse(astq.returns(gl.node)[-1].value) == "1", "reader:lookup", "environment:Template.get_corresponding_lineno", "lookup", "the template line is that of the last entry whose generated line is <= the failing line (default 1)", gl.loc())
+    dflt_ok = astq.returns(gl.node)[-1].value is not None and ast.unparse(astq.returns(gl.node)[-1].value) == "1"
+    # the same search written as next(<generator>, 1)
+    for c_ in astq.calls(gl.node):
+        if astq.callee(c_) == "next" and len(c_.args) == 2 and isinstance(c_.args[0], ast.GeneratorExp) and len(c_.args[0].generators) == 1:
+            g_ = c_.args[0].generators[0]
+            if ast.unparse(g_.iter) == "reversed(self.debug_info)" and isinstance(g_.target, ast.Tuple) and len(g_.target.elts) == 2 and len(g_.ifs) == 1:
+                tl, cl = (ast.unparse(e_) for e_ in g_.target.elts)
+                lk_ok = ast.unparse(c_.args[0].elt) == tl and astq.linear_cmp(g_.ifs[0]) in (({cl: 1, "lineno": -1}, "<="), ({"lineno": 1, cl: -1}, ">="))
+                dflt_ok = ast.unparse(c_.args[1]) == "1" and isinstance(getattr(c_, "_parent", None), ast.Return)
+    ctx.check(lk_ok and dflt_ok, "reader:lookup", "environment:Template.get_corresponding_lineno", "lookup", "the template line is that of the last entry whose generated line is <= the failing line (default 1)", gl.loc())
     fn = repo.func("environment:Template._from_namespace")
     ctx.check(any(isinstance(a, ast.Assign) and isinstance(a.targets[0], ast.Attribute) and a.targets[0].attr == "_debug_info" and ast.unparse(a.value) == "namespace['debug_info']" for a in ast.walk(fn.node)), "reader:source", "environment:Template._from_namespace", "debug_info taken from the module", "the template must read debug_info from its generated module", fn.loc())
     rt = repo.func("debug:rewrite_traceback_stack")
